@@ -46,7 +46,7 @@ func (w *world) fieldStep(s sim.Step) {
 	role := at(roleTab, s.Arg(1))
 	ssvType := at(ssvTypeTab, s.Arg(2))
 	qt := at(qbftTab, s.Arg(3))
-	height := at([]uint64{cur, cur, cur - 1, cur + 1, cur - 33, cur - 40, cur + 3, 0, 1, 1 << 63, 1<<63 - 1, ^uint64(0), cur + 1<<32, cur - 1000, cur - 3, cur - 5}, s.Arg(4))
+	height := at([]uint64{cur, cur, cur - 1, cur + 1, cur - 33, cur - 40, cur + 3, 0, 1, 1 << 63, 1<<63 - 1, ^uint64(0), cur + 1<<32, cur - 1000, cur - 3, cur - 5, cur + 1<<62, cur + 1<<63, cur + 3<<62}, s.Arg(4)) // the last three wrap slot*12 back to now
 	round := at([]uint64{1, w.estRound(), 2, 3, 0, 6, 7, 12, 13, 16, 17, 1 << 63, ^uint64(0), 1<<63 - 1, 1 << 32, w.estRound() + 1, w.estRound() + 2, w.estRound() + 5}, s.Arg(5))
 	op, claimed := w.senderOp(s.Arg(11))
 	leader := uint64(1)
